@@ -377,7 +377,7 @@ func init() {
 		Assumptions: []string{
 			"the caches are switched through the library's own test switches (exposed by //go:build verif hook files added by the overlay) and its exported cache variables; the per-record transform cache switch is installed by an overlay rewrite of NewParseCtx",
 		},
-		BudgetQuick: 100, BudgetThorough: 1500,
+		BudgetQuick: 250, BudgetThorough: 1500,
 		Run: func(c *core.Ctx) {
 			cfgs := c13Configs(c.Quick())
 			jobs := c13Jobs(c.Quick())
